@@ -118,7 +118,11 @@ func runHarness(P *Program, h *Harness, opt solveOpts) (res *HarnessResult) {
 // symbolic creates an unconstrained, well-typed input value.
 func (E *Engine) symbolic(fr *Frame, st *State, name string, t types.Type) Val {
 	if _, ok := types.Unalias(t).Underlying().(*types.Signature); ok {
-		return E.tb.Const("in$"+name, SRef)
+		c := E.tb.Const("in$"+name, SRef)
+		if E.harness.PureFuncParams {
+			E.pureFns[c] = true
+		}
+		return c
 	}
 	v := E.tb.Const("in$"+name, E.sortOf(t, fr.tenv))
 	E.addFact(st, E.wellTyped(v, t, fr.tenv))
